@@ -15,6 +15,8 @@ def regenerate_all(ctx: Ctx):
         mod = importlib.import_module(f"harness.extract.{m.name}")
         if hasattr(mod, "emit") and hasattr(mod, "GEN_NAME"):
             ctx.extract(mod.GEN_NAME, mod.emit)
+        for gen_name, fn_name in getattr(mod, "EXTRA_GEN", {}).items():  # further Gen files produced by the same module
+            ctx.extract(gen_name, getattr(mod, fn_name))
 
 
 def main() -> int:
